@@ -264,6 +264,43 @@ def field_level_into_shape():
     return Shape("c08_into_field_level", module(decl, src), hs, decl.replace("\n", " "), exercises=["impl/src/into.rs::Expansion (field attributes)"])
 
 
+def field_skip_order_shape():
+    """A field carrying its own conversion AND `#[into(skip)]`, with the skip written after / between the conversions (the order impl/doc/into.md itself
+    uses): the field stays out of the struct-level tuples whatever the position of the skip among its attributes."""
+    decl = ("#[derive(Clone, Copy, PartialEq, Debug, derive_more::Into)]\n#[into(owned, ref)]\n"
+            "pub struct S {\n    #[into(ref)]\n    #[into(skip)]\n    pub x: A,\n    pub y: B,\n    pub z: A,\n}\n\n"
+            "#[derive(Clone, Copy, PartialEq, Debug, derive_more::Into)]\n#[into]\n"
+            "pub struct T(pub B, #[into(owned)] #[into(ignore)] #[into(ref)] pub A, pub B);\n\n"
+            "#[derive(Clone, Copy, PartialEq, Debug, derive_more::Into)]\n#[into(owned)]\n"
+            "pub struct First {\n    #[into(skip)]\n    #[into(ref)]\n    pub x: A,\n    pub y: B,\n}")
+    src = """    #[kani::proof]
+    fn skip_position_among_field_attributes() {
+        let s = S { x: A(kani::any()), y: B(kani::any()), z: A(kani::any()) };
+        let (b, a): (B, A) = s.into();
+        assert!(b == s.y && a == s.z, "struct-level tuple must leave out the field that carries #[into(skip)] after #[into(ref)]");
+        let (rb, ra): (&B, &A) = (&s).into();
+        assert!(ptr::eq(rb, &s.y) && ptr::eq(ra, &s.z));
+        let rx: &A = (&s).into();
+        assert!(ptr::eq(rx, &s.x), "the field's own #[into(ref)] is the field itself");
+        let t = T(B(kani::any()), A(kani::any()), B(kani::any()));
+        let (b0, b2): (B, B) = t.into();
+        assert!(b0 == t.0 && b2 == t.2, "tuple struct: skip written between two conversions");
+        let own: A = t.into();
+        assert!(own == t.1);
+        let r1: &A = (&t).into();
+        assert!(ptr::eq(r1, &t.1));
+        let f = First { x: A(kani::any()), y: B(kani::any()) };
+        let y: B = f.into();
+        assert!(y == f.y, "skip written first");
+        kani::cover!(true, "reach end");
+    }
+"""
+    hs = [Harness("skip_position_among_field_attributes", "field values free u16", covers=1,
+                  asserts="a field with #[into(skip)] is left out of the struct-level tuples wherever the skip stands among the field's #[into] attributes; "
+                          "its own conversions still exist and are the field itself")]
+    return Shape("c08_into_field_skip_order", module(decl, src), hs, decl.replace("\n", " "), exercises=["impl/src/into.rs::FieldAttribute::merge_attrs"])
+
+
 def enum_shape(name, variants_src, body, asserts, covers=1):
     decl = "#[derive(Clone, Copy, PartialEq, Debug, derive_more::From)]\npub enum E {\n%s\n}" % variants_src
     src = "    #[kani::proof]\n    fn per_variant_conversions() {\n%s        kani::cover!(true, \"reach end\");\n    }\n" % body
@@ -409,6 +446,7 @@ def shapes(tier):
             out.append(sh)
         out.append(typed_shape(kind))
     out.append(field_level_into_shape())
+    out.append(field_skip_order_shape())
     out += enum_shapes()
     out += absent_impl_shapes()
     # the whole grid costs ~15 s: quick and thorough run all of it
